@@ -825,12 +825,7 @@ HMCIstaccess(accrec_t *access_rec, /* IN: access record to fill in */
     int32        dd_aid;             /* AID for writing the special info */
     uint16       data_tag, data_ref; /* Tag/ref of the data in the file */
     uint8        local_ptbuf[6];     /* 6 bytes for special header length */
-#if 0
-    uint8       *c_sp_header = NULL;   /* special element header(dynamic) */
-#endif
-    uint8 c_sp_header[256] = "";  /* special element header buffer.
-                                     dynamic allocation causes
-                                     a problem on the HPUX -GV */
+    uint8 *c_sp_header = NULL; /* special element header (as long as the file says) */
     int32      interlace;         /* type of interlace */
     int32      vdata_size;        /* size of Vdata */
     int32      num_recs;          /* number of Vdatas */
@@ -955,16 +950,14 @@ HMCIstaccess(accrec_t *access_rec, /* IN: access record to fill in */
             INT32DECODE(p, info->sp_tag_header_len); /* 4 bytes */
         }
 
-        /* Sanity check, the 256 limit is arbitrary and can
-           be removed later....*/
-        if (info->sp_tag_header_len < 0 || info->sp_tag_header_len > 256)
+        /* Sanity check: HMCcreate writes a header of 33 + 12 * rank + fill
+           value bytes, which passes 256 from rank 19 on */
+        if (info->sp_tag_header_len <= 0)
             HGOTO_ERROR(DFE_INTERNAL, FAIL);
 
-#if 0 /* dynamic allocation causes a problem on HPUX, removed for now -GV */
-          /* Allocate buffer space for rest of special header */
-          if (( c_sp_header = (uint8 *) calloc(info->sp_tag_header_len,1))==NULL)
-              HGOTO_ERROR(DFE_NOSPACE, FAIL);
-#endif
+        /* Allocate buffer space for rest of special header */
+        if ((c_sp_header = (uint8 *)calloc((size_t)info->sp_tag_header_len, 1)) == NULL)
+            HGOTO_ERROR(DFE_NOSPACE, FAIL);
         /* first read special header in */
         if (Hread(dd_aid, info->sp_tag_header_len, c_sp_header) == FAIL)
             HGOTO_ERROR(DFE_READERROR, FAIL);
@@ -1280,11 +1273,8 @@ done:
 
     } /* end if */
 
-#if 0 /* dynamic allocation causes a problem on HPUX, removed for now -GV */
     /* free special element header */
-    if (c_sp_header != NULL)
-        free(c_sp_header);
-#endif
+    free(c_sp_header);
     /* free allocated space for vdata record */
     free(v_data);
 
